@@ -35,6 +35,7 @@ const (
 	rtDB     = "db_v"
 	rtTable  = "t_sh"
 	rtLinked = "t_ln"
+	rtGlobal = "t_gl"
 	rtKey    = "k"
 	rtLKey   = "lk"
 	rtOther  = "o"
@@ -259,7 +260,13 @@ func rtNewEnv(r *rtRule) (*rtEnv, error) {
 		}
 	}
 	linked := map[string]interface{}{"db": rtDB, "table": rtLinked, "type": "linked", "key": rtLKey, "parent_table": rtTable}
-	ns, err := rtNamespace(nsl, []map[string]interface{}{main, linked}, nil)
+	// a global table with one copy on every slice (joined with the sharded table in the gjoin forms)
+	ones := make([]int, nsl)
+	for i := range ones {
+		ones[i] = 1
+	}
+	global := map[string]interface{}{"db": rtDB, "table": rtGlobal, "type": "global", "locations": ones, "slices": sl}
+	ns, err := rtNamespace(nsl, []map[string]interface{}{main, linked, global}, nil)
 	if err != nil {
 		return nil, err
 	}
@@ -597,6 +604,30 @@ func (e *rtEnv) renderStmt(tree *rtNode, form string, sp *rtSpell) (string, func
 				}
 				return nil
 			}
+	case "gjoin-where", "gjoin-on":
+		// the sharded table joined with a global table; the tree's other column is the GLOBAL table's column,
+		// so its predicates restrict the global rows only and MustRoute is the same
+		c := rtCols{"a." + rtKey, "g." + rtOther}
+		from := rtTable + " a JOIN " + rtGlobal + " g"
+		switch sp.n(3) {
+		case 0:
+			c = rtCols{rtTable + "." + rtKey, rtGlobal + "." + rtOther}
+			from = rtTable + " JOIN " + rtGlobal
+		case 1:
+			if form == "gjoin-where" {
+				from = rtTable + " a, " + rtGlobal + " g"
+			}
+		}
+		if form == "gjoin-where" {
+			return "SELECT * FROM " + from + " WHERE " + e.renderNode(tree, c, sp, true), selWhere
+		}
+		return "SELECT * FROM " + from + " ON " + e.renderNode(tree, c, sp, true),
+			func(s ast.StmtNode) ast.ExprNode {
+				if x, ok := s.(*ast.SelectStmt); ok && x.From != nil && x.From.TableRefs != nil && x.From.TableRefs.On != nil {
+					return x.From.TableRefs.On.Expr
+				}
+				return nil
+			}
 	case "join-where":
 		c := rtCols{"a." + rtKey, "a." + rtOther}
 		if sp.bit() {
@@ -751,12 +782,21 @@ func rtLeaves(n *rtNode, out *[]*rtNode) {
 }
 
 // the leaf alone as SELECT ... WHERE leaf (canonical spelling), memoised per rule
-func (e *rtEnv) leafAlone(n *rtNode) *rtObs {
-	key, _ := json.Marshal(n)
-	if o, ok := e.leafMemo[string(key)]; ok {
+func (e *rtEnv) leafAlone(n *rtNode, form string) *rtObs {
+	gj := strings.HasPrefix(form, "gjoin")
+	kb, _ := json.Marshal(n)
+	key := string(kb)
+	if gj {
+		key = form + "|" + key
+	}
+	if o, ok := e.leafMemo[key]; ok {
 		return o
 	}
 	sql := "SELECT * FROM " + rtTable + " WHERE " + e.renderNodeCanon(n, rtCols{rtKey, rtOther})
+	if gj {
+		// the leaf alone in the same join with the global table
+		sql, _ = e.renderStmt(n, form, &rtSpell{fixed: true})
+	}
 	stmt, err := parser.ParseSQL(sql)
 	var o *rtObs
 	if err != nil {
@@ -768,7 +808,7 @@ func (e *rtEnv) leafAlone(n *rtNode) *rtObs {
 			e.observe(p, o)
 		}
 	}
-	e.leafMemo[string(key)] = o
+	e.leafMemo[key] = o
 	return o
 }
 
@@ -783,7 +823,22 @@ func (e *rtEnv) idxOf(v int) (int, bool) {
 }
 
 // signature of a leaf that drops must-tables on its own
-func (e *rtEnv) leafSig(n *rtNode, missing []int) string {
+func (e *rtEnv) leafSig(n *rtNode, missing []int, form string) string {
+	if n.Col == "o" {
+		// only possible in the forms that join a global table: a predicate on the global table's column prunes
+		kind := "op=" + n.Op
+		switch {
+		case n.K == "in" && n.Neg:
+			kind = "not-in"
+		case n.K == "in":
+			kind = "in"
+		case n.K == "btw" && n.Neg:
+			kind = "not-between"
+		case n.K == "btw":
+			kind = "between"
+		}
+		return fmt.Sprintf("C01 %s join-with-global %s global-column %s drops=tables", e.family, strings.TrimPrefix(form, "gjoin-"), kind)
+	}
 	cls := func(v int) string {
 		if c, ok := e.litclass[v]; ok {
 			return c
@@ -899,7 +954,7 @@ func (h *rtHarness) runCond(raw json.RawMessage, res *verifkit.Result) {
 		}
 		if obs.rejected {
 			h.st.inc("rejected")
-			if !c.Pruned.Rej {
+			if !c.Pruned.Rej && !strings.HasPrefix(form, "gjoin") {
 				h.st.inc("model-drift:rejected-but-model-accepts")
 				h.drift(sql + " rejected: " + obs.err)
 			}
@@ -914,7 +969,9 @@ func (h *rtHarness) runCond(raw json.RawMessage, res *verifkit.Result) {
 		for _, pr := range obs.problems {
 			res.Dev(fmt.Sprintf("C01 %s inconsistent-plan form=%s", e.family, form), "%s: %s", sql, pr)
 		}
-		if c.Pruned.Rej {
+		if strings.HasPrefix(form, "gjoin") {
+			// the I-level pruning model has no global table: nothing to compare the routed set with
+		} else if c.Pruned.Rej {
 			h.st.inc("model-drift:accepted-but-model-rejects")
 			h.drift(sql + " accepted, model predicts rejection")
 		} else {
@@ -937,7 +994,7 @@ func (h *rtHarness) runCond(raw json.RawMessage, res *verifkit.Result) {
 			if j >= len(c.LeafMust) {
 				break
 			}
-			lo := e.leafAlone(lf)
+			lo := e.leafAlone(lf, form)
 			if lo.rejected || lo.panicked {
 				continue
 			}
@@ -957,7 +1014,7 @@ func (h *rtHarness) runCond(raw json.RawMessage, res *verifkit.Result) {
 				}
 			}
 			if hit {
-				sig := e.leafSig(lf, lmiss)
+				sig := e.leafSig(lf, lmiss, form)
 				explainedBy[sig] = append(explainedBy[sig], e.renderNodeCanon(lf, rtCols{rtKey, rtOther}))
 			}
 		}
